@@ -24,10 +24,22 @@ def gen_e2e(ctx):
             yield eline(c, [co, "noop@" + R(b"200 ok") + ",X", "disc:1", "disc:0", co, noop, "disc:1@" + R(b"221 bye")])
             yield eline(c, [co, "noop@" + R(b"200 ok") + ",X", "noop", "isconn", "disc:0", co, noop])
             yield eline(c, [co, "noop@X", "disc:1", "disc:0", "isconn"])
+    # cancelled transfers on TLS-protected (and plain) data connections, all four methods: the callback reports cancellation after
+    # the first block; ABOR is answered 426 + 226; the data socket (and the listening socket in active mode) must be gone afterwards
+    abor = ",".join([R(b"426 aborted"), R(b"226 abor ok")])
+    for ver in (13, 12):
+        for tls in (1, 0):
+            for mode in "pa":
+                for rfc in (0, 1):
+                    c = cfg_str(mode=mode, rfc=rfc, ver=ver, tls=tls, prop="C17", verify="none")
+                    co = connect(tls=bool(tls))
+                    g = "get:%s:ok:p01@%s/%s/%s" % (H(b"SECRETPATH03.bin"), setup(mode, rfc), ",".join([R(b"150 go"), "Dsend:g7.8192::c"]), abor)
+                    p = "put:STOR:%s:g8.20000:p01@%s/%s/%s" % (H(b"SECRETPATH04.bin"), setup(mode, rfc), ",".join([R(b"150 go"), "Drecv:-:c"]), abor)
+                    yield eline(c, [co, g, noop, p, noop, g, get(mode, rfc), "disc:1@" + R(b"221 bye")])
     for gen, prop in ((C13.gen_e2e, "C13"), (C07.gen_e2e, "C07"), (C11.gen, "C11")):
         for l in gen(dict(ctx, scopes=[])):
             yield l.replace("prop=%s" % prop, "prop=C17")
-    ctx["scopes"].append("e2e: control connection closed / reset by the server after a reply, instead of a reply, after 421, during login x TLS 1.2 / 1.3 / plain, each followed by graceful and non-graceful disconnect and a reconnect; plus the C13 / C07 / C11 e2e histories judged by the descriptor rule")
+    ctx["scopes"].append("e2e: control connection closed / reset by the server after a reply, instead of a reply, after 421, during login x TLS 1.2 / 1.3 / plain, each followed by graceful and non-graceful disconnect and a reconnect; cancelled downloads / uploads (ABOR) on TLS and plain data connections x four methods; plus the C13 / C07 / C11 e2e histories judged by the descriptor rule")
 
 PROP = {"id": "C17", "stages": [{"name": "client", "target": "h_client", "gen": gen_c17, "shard": 12},
                                 {"name": "e2e", "target": "h_e2e", "gen": gen_e2e, "shard": 6}], "trivial_tags": [],
